@@ -15,6 +15,33 @@ pub use splitter::{ShardSplitter, SplitPhase, SplitProgress};
 
 use std::time::Duration;
 
+/// The `timestamp` column of a batch as nanoseconds since the epoch.
+///
+/// `Timestamp(Nanosecond, _)` (the metric schema) and `Int64` columns both carry
+/// nanoseconds; any other type is rejected.
+pub(crate) fn timestamp_nanos(
+    batch: &arrow_array::RecordBatch,
+) -> crate::Result<arrow_array::Int64Array> {
+    use arrow_array::cast::AsArray;
+    use arrow_array::types::{Int64Type, TimestampNanosecondType};
+
+    let col = batch
+        .column_by_name("timestamp")
+        .ok_or_else(|| crate::Error::InvalidSchema("Missing timestamp column".into()))?;
+
+    if let Some(ts_array) = col.as_primitive_opt::<TimestampNanosecondType>() {
+        return Ok(ts_array.reinterpret_cast::<Int64Type>());
+    }
+    if let Some(ts_array) = col.as_primitive_opt::<Int64Type>() {
+        return Ok(ts_array.clone());
+    }
+
+    Err(crate::Error::InvalidSchema(format!(
+        "Timestamp column must be Timestamp(Nanosecond) or Int64, got {:?}",
+        col.data_type()
+    )))
+}
+
 /// Shard identifier
 pub type ShardId = String;
 
